@@ -65,19 +65,24 @@ _WORD = set("ABCDEFGHIJKLMNOPQRSTUVWXYZabcdefghijklmnopqrstuvwxyz0123456789_")
 
 
 def _join(tokens, sty, loose):
-    """Concatenate tokens; whitespace is mandatory only where two word-like tokens would fuse."""
+    """Concatenate tokens; whitespace is mandatory only where two word-like tokens would fuse.  No comment is placed
+    before the first "[": the third-party validator's bracket pre-check skips only blanks and "(" there."""
     out = []
     prev = None
+    opened = False
     for tok in tokens:
         if prev is not None:
-            need = (prev[-1] in _WORD or prev[-1] == "-") and (tok[0] in _WORD or tok[0] in "+-.'")
-            if need:
-                out.append(_REQ_WS[sty.pick(len(_REQ_WS))] if loose else " ")
-            elif loose:
-                out.append(_OPT_WS[sty.pick(len(_OPT_WS))])
+            need = (prev[-1] in _WORD or prev[-1] == "-") and (tok[0] in _WORD or tok[0] == "'" or (tok[0] in "+-." and len(tok) > 1))
+            if not loose:
+                out.append(" " if need else _compact_sep(prev, tok))
+            elif not opened:
+                out.append(_LEAD_WS[sty.pick(len(_LEAD_WS))])
+            elif need:
+                out.append(_REQ_WS[sty.pick(len(_REQ_WS))])
             else:
-                out.append(_compact_sep(prev, tok))
+                out.append(_OPT_WS[sty.pick(len(_OPT_WS))])
         out.append(tok)
+        opened = opened or tok == "["
         prev = tok
     return "".join(out)
 
@@ -136,7 +141,7 @@ def path_tokens(p):
         else:
             if first:
                 raise ValueError("path starts with an index step")
-            toks.extend(["[", str(st["i"]), "]"])
+            toks.extend(["[", st.get("sp") or str(st["i"]), "]"])
         first = False
     return toks
 
@@ -218,3 +223,981 @@ def to_text(ast, style=None):
     if loose:  # no comment in front: the third-party validator's bracket pre-check only skips blanks and "("
         body = _LEAD_WS[sty.pick(len(_LEAD_WS))] + body + _OPT_WS[sty.pick(len(_OPT_WS))]
     return body
+
+
+# ----------------------------------------------------------------------
+# parser (recursive descent over my own tokenizer; mirrors the stix2-patterns 2.1.2 grammar)
+
+_WS_CHARS = set(" \t\r\n\x0b\x0c\x85\xa0                　")
+_B64 = "[A-Za-z0-9+/]"
+_LEX = [  # (type, regex) in the grammar's priority order; longest match wins, ties go to the earlier rule
+    ("intneg", re.compile(r"-(?:0|[1-9][0-9]*)")),
+    ("intpos", re.compile(r"\+?(?:0|[1-9][0-9]*)")),
+    ("floatneg", re.compile(r"-[0-9]*\.[0-9]+")),
+    ("floatpos", re.compile(r"\+?[0-9]*\.[0-9]+")),
+    ("hex", re.compile(r"h'(?:[A-Fa-f0-9]{2})*'")),
+    ("bin", re.compile(r"b'(?:%s{4})*(?:%s{4}|%s{3}=|%s{2}==)'" % (_B64, _B64, _B64, _B64))),
+    ("str", re.compile(r"'(?:[^'\\]|\\'|\\\\)*'")),
+    ("bool", re.compile(r"true|false")),
+    ("ts", re.compile(r"t'[0-9]{4}-(?:0[1-9]|1[012])-(?:0[1-9]|[12][0-9]|3[01])T(?:[01][0-9]|2[0-3]):[0-5][0-9]:(?:[0-5][0-9]|60)(?:\.[0-9]+)?Z'")),
+    ("kw", None),  # handled through the identifier rule below
+    ("id", re.compile(r"[A-Za-z_][A-Za-z0-9_]*")),
+    ("idh", re.compile(r"[A-Za-z_][A-Za-z0-9_-]*")),
+    ("op", re.compile(r"==|=|!=|<>|<=|>=|<|>")),
+    ("punct", re.compile(r"[:.,()\[\]*]")),
+]
+
+
+def tokenize(text, version="2.1"):
+    kws = KEYWORDS if version == "2.1" else KEYWORDS - {"EXISTS"}
+    toks = []
+    i, n = 0, len(text)
+    while i < n:
+        ch = text[i]
+        if ch in _WS_CHARS:
+            i += 1
+            continue
+        if text.startswith("/*", i):
+            j = text.find("*/", i + 2)
+            if j < 0:
+                raise PatternSyntaxError("unterminated comment at %d" % i)
+            i = j + 2
+            continue
+        if text.startswith("//", i):
+            j = i
+            while j < n and text[j] not in "\r\n":
+                j += 1
+            i = j
+            continue
+        best = None
+        for typ, rx in _LEX:
+            if rx is None:
+                continue
+            m = rx.match(text, i)
+            if m and m.end() > i and (best is None or m.end() > best[1]):
+                best = (typ, m.end())
+        if best is None:
+            raise PatternSyntaxError("unexpected character %r at %d" % (ch, i))
+        typ, j = best
+        val = text[i:j]
+        if typ == "id" and val in kws:
+            typ = "kw"
+        toks.append((typ, val, i))
+        i = j
+    toks.append(("eof", "", n))
+    return toks
+
+
+def unescape_string(body):
+    out = []
+    i = 0
+    while i < len(body):
+        if body[i] == "\\":
+            out.append(body[i + 1])
+            i += 2
+        else:
+            out.append(body[i])
+            i += 1
+    return "".join(out)
+
+
+class _Parser(object):
+    def __init__(self, text, version):
+        self.toks = tokenize(text, version)
+        self.i = 0
+        self.version = version
+
+    def peek(self, k=0):
+        return self.toks[min(self.i + k, len(self.toks) - 1)]
+
+    def at(self, typ, val=None):
+        t = self.peek()
+        return t[0] == typ and (val is None or t[1] == val)
+
+    def take(self, typ=None, val=None):
+        t = self.peek()
+        if (typ is not None and t[0] != typ) or (val is not None and t[1] != val):
+            raise PatternSyntaxError("expected %s %s, found %r at %d" % (typ or "", val or "", t[1], t[2]))
+        self.i += 1
+        return t
+
+    # observation level
+    def pattern(self):
+        n = self.obs_chain(0)
+        self.take("eof")
+        return n
+
+    _LEVELS = [("ofb", "FOLLOWEDBY"), ("oor", "OR"), ("oand", "AND")]
+
+    def obs_chain(self, lvl):
+        if lvl == 3:
+            return self.obs_atom()
+        k, word = self._LEVELS[lvl]
+        args = [self.obs_chain(lvl + 1)]
+        while self.at("kw", word):
+            self.take()
+            args.append(self.obs_chain(lvl + 1))
+        return args[0] if len(args) == 1 else {"k": k, "args": args}
+
+    def obs_atom(self):
+        if self.at("punct", "["):
+            self.take()
+            e = self.cmp_chain(0)
+            self.take("punct", "]")
+            n = {"k": "obs", "e": e}
+        elif self.at("punct", "("):
+            self.take()
+            n = self.obs_chain(0)
+            self.take("punct", ")")
+        else:
+            t = self.peek()
+            raise PatternSyntaxError("expected '[' or '(', found %r at %d" % (t[1], t[2]))
+        while True:
+            if self.at("kw", "REPEATS"):
+                self.take()
+                c = self.const(("intpos",))
+                self.take("kw", "TIMES")
+                q = {"q": "repeats", "n": c}
+            elif self.at("kw", "WITHIN"):
+                self.take()
+                c = self.const(("intpos", "floatpos"))
+                self.take("kw", "SECONDS")
+                q = {"q": "within", "n": c}
+            elif self.at("kw", "START"):
+                self.take()
+                a = self.const(("ts",))
+                self.take("kw", "STOP")
+                b = self.const(("ts",))
+                q = {"q": "startstop", "a": a, "b": b}
+            else:
+                return n
+            n = {"k": "qual", "e": n, "q": q}
+
+    # comparison level
+    def cmp_chain(self, lvl):
+        if lvl == 2:
+            return self.prop_test()
+        k, word = (("or", "OR"), ("and", "AND"))[lvl]
+        args = [self.cmp_chain(lvl + 1)]
+        while self.at("kw", word):
+            self.take()
+            args.append(self.cmp_chain(lvl + 1))
+        return args[0] if len(args) == 1 else {"k": k, "args": args}
+
+    _ORDERABLE = ("intpos", "intneg", "floatpos", "floatneg", "str", "bin", "hex", "ts")
+
+    def prop_test(self):
+        if self.at("punct", "("):
+            self.take()
+            n = self.cmp_chain(0)
+            self.take("punct", ")")
+            return n
+        if self.at("kw", "EXISTS") or (self.at("kw", "NOT") and self.peek(1)[:2] == ("kw", "EXISTS")):
+            neg = False
+            if self.at("kw", "NOT"):
+                self.take()
+                neg = True
+            self.take("kw", "EXISTS")
+            return {"k": "exists", "path": self.path(), "neg": neg}
+        p = self.path()
+        neg = False
+        if self.at("kw", "NOT"):
+            self.take()
+            neg = True
+        t = self.take()
+        if t[0] == "op":
+            op = {"==": "=", "<>": "!="}.get(t[1], t[1])
+            rhs = self.const(self._ORDERABLE + (("bool",) if op in ("=", "!=") else ()))
+        elif t[0] == "kw" and t[1] == "IN":
+            op = "IN"
+            self.take("punct", "(")
+            items = []
+            if not self.at("punct", ")"):
+                items.append(self.const(self._ORDERABLE + ("bool",)))
+                while self.at("punct", ","):
+                    self.take()
+                    items.append(self.const(self._ORDERABLE + ("bool",)))
+            self.take("punct", ")")
+            rhs = {"c": "set", "items": items}
+        elif t[0] == "kw" and t[1] in STRING_OPS:
+            op = t[1]
+            rhs = self.const(("str",))
+        else:
+            raise PatternSyntaxError("expected a comparison operator, found %r at %d" % (t[1], t[2]))
+        return {"k": "cmp", "path": p, "op": op, "neg": neg, "rhs": rhs}
+
+    def path(self):
+        t = self.take()
+        if t[0] not in ("id", "idh"):
+            raise PatternSyntaxError("expected an object type, found %r at %d" % (t[1], t[2]))
+        self.take("punct", ":")
+        steps = [self.key_step()]
+        while True:
+            if self.at("punct", "."):
+                self.take()
+                steps.append(self.key_step())
+            elif self.at("punct", "["):
+                self.take()
+                t2 = self.take()
+                if t2[0] in ("intpos", "intneg"):
+                    idx = int(t2[1])
+                elif t2[:2] == ("punct", "*"):
+                    idx = "*"
+                else:
+                    raise PatternSyntaxError("bad index %r at %d" % (t2[1], t2[2]))
+                self.take("punct", "]")
+                steps.append({"s": "idx", "i": idx})
+            else:
+                return {"t": t[1], "steps": steps}
+
+    def key_step(self):
+        t = self.take()
+        if t[0] == "id":
+            return {"s": "key", "n": t[1], "q": False}
+        if t[0] == "str":
+            return {"s": "key", "n": unescape_string(t[1][1:-1]), "q": True}
+        raise PatternSyntaxError("expected a property name, found %r at %d" % (t[1], t[2]))
+
+    def const(self, allowed):
+        t = self.take()
+        if t[0] not in allowed:
+            raise PatternSyntaxError("constant of kind %s not allowed here (%r at %d)" % (t[0], t[1], t[2]))
+        typ, v = t[0], t[1]
+        if typ in ("intpos", "intneg"):
+            return {"c": "int", "v": int(v), "sp": v}
+        if typ in ("floatpos", "floatneg"):
+            return {"c": "float", "sp": v}
+        if typ == "str":
+            return {"c": "str", "v": unescape_string(v[1:-1])}
+        if typ == "bool":
+            return {"c": "bool", "v": v == "true"}
+        if typ == "ts":
+            return {"c": "ts", "v": v[2:-1]}
+        if typ == "hex":
+            return {"c": "hex", "v": v[2:-1]}
+        if typ == "bin":
+            return {"c": "bin", "v": v[2:-1]}
+        raise PatternSyntaxError("not a constant: %r" % (v,))
+
+
+def parse(text, version="2.1"):
+    """text -> AST (parentheses erased, operator chains n-ary).  Raises PatternSyntaxError."""
+    return _Parser(text, version).pattern()
+
+
+# ----------------------------------------------------------------------
+# canonical form (spelling erased) and traversal helpers
+
+def ts_instant(v):
+    m = TS_RE.match(v)
+    if not m:
+        raise ValueError("not a timestamp literal: %r" % (v,))
+    frac = (m.group(7) or "").rstrip("0")
+    return "-".join(m.group(1, 2, 3)) + "T" + ":".join(m.group(4, 5, 6)) + ("." + frac if frac else "") + "Z"
+
+
+def canon_const(c):
+    k = c["c"]
+    if k == "int":
+        return {"c": "int", "v": c["v"]}
+    if k == "float":
+        return {"c": "float", "v": float(c["sp"]).hex()}
+    if k == "ts":
+        return {"c": "ts", "v": ts_instant(c["v"])}
+    if k == "hex":
+        return {"c": "hex", "v": c["v"].lower()}
+    if k == "set":
+        return {"c": "set", "items": [canon_const(x) for x in c["items"]]}
+    return {"c": k, "v": c["v"]}
+
+
+def canon_path(p):
+    return {"t": p["t"], "steps": [{"s": "key", "n": s["n"]} if s["s"] == "key" else {"s": "idx", "i": s["i"]} for s in p["steps"]]}
+
+
+def canon(n):
+    """Erase constant/operator spelling: `!=` becomes NOT =, `+5` is 5, `.50` is 0.5, timestamps by instant."""
+    k = n["k"]
+    if k == "cmp":
+        op, neg = n["op"], bool(n["neg"])
+        if op == "!=":
+            op, neg = "=", not neg
+        return {"k": "cmp", "path": canon_path(n["path"]), "op": op, "neg": neg, "rhs": canon_const(n["rhs"])}
+    if k == "exists":
+        return {"k": "exists", "path": canon_path(n["path"]), "neg": bool(n["neg"])}
+    if k == "obs":
+        return {"k": "obs", "e": canon(n["e"])}
+    if k == "qual":
+        q = n["q"]
+        if q["q"] == "startstop":
+            cq = {"q": "startstop", "a": canon_const(q["a"]), "b": canon_const(q["b"])}
+        else:
+            cq = {"q": q["q"], "n": canon_const(q["n"])}
+        return {"k": "qual", "e": canon(n["e"]), "q": cq}
+    return {"k": k, "args": [canon(a) for a in n["args"]]}
+
+
+def walk(n):
+    """Yield every node (observation and comparison level), parents first."""
+    yield n
+    k = n["k"]
+    if k in ("obs", "qual"):
+        for x in walk(n["e"]):
+            yield x
+    elif "args" in n:
+        for a in n["args"]:
+            for x in walk(a):
+                yield x
+
+
+def map_nodes(n, fn):
+    """Bottom-up rebuild: fn(node_with_mapped_children) -> node."""
+    k = n["k"]
+    if k in ("obs", "qual"):
+        m = dict(n)
+        m["e"] = map_nodes(n["e"], fn)
+    elif "args" in n:
+        m = dict(n)
+        m["args"] = [map_nodes(a, fn) for a in n["args"]]
+    else:
+        m = dict(n)
+    return fn(m)
+
+
+def consts_of(n):
+    for x in walk(n):
+        if x["k"] == "cmp":
+            if x["rhs"]["c"] == "set":
+                yield x["rhs"]
+                for it in x["rhs"]["items"]:
+                    yield it
+            else:
+                yield x["rhs"]
+        elif x["k"] == "qual":
+            q = x["q"]
+            for key in ("n", "a", "b"):
+                if key in q:
+                    yield q[key]
+
+
+def depth(n):
+    k = n["k"]
+    if k in ("cmp", "exists"):
+        return 1
+    if k in ("obs", "qual"):
+        return 1 + depth(n["e"])
+    return 1 + max(depth(a) for a in n["args"])
+
+
+def types_of(n):
+    """Set of object types a comparison-level expression can be satisfied by (None = unsatisfiable AND)."""
+    k = n["k"]
+    if k in ("cmp", "exists"):
+        return {n["path"]["t"]}
+    sets = [types_of(a) for a in n["args"]]
+    if k == "or":
+        out = set()
+        for s in sets:
+            out |= s
+        return out
+    out = set(sets[0])
+    for s in sets[1:]:
+        out &= s
+    return out
+
+
+# ----------------------------------------------------------------------
+# Hypothesis strategies: unrestricted vocabulary (C10)
+
+from hypothesis import strategies as st  # noqa: E402
+
+_ID_FIRST = "abcdefghijklmnopqrstuvwxyzABCDEFGHIJKLMNOPQRSTUVWXYZ_"
+_ID_REST = _ID_FIRST + "0123456789"
+
+
+def _fix_kw(s):
+    return s + "_" if s in KEYWORDS else s
+
+
+ident = st.one_of(
+    st.sampled_from(["b", "c", "name", "value", "size", "x", "y", "dst_ref", "src_ref", "parent_ref", "opened_connection_refs", "_p", "A",
+                     "Z9", "x_y_z", "t", "h", "b", "like", "and", "In", "Start", "exists", "TRUE", "not", "a1", "extensions", "key", "values"]),
+    st.builds(lambda a, r: _fix_kw(a + r), st.sampled_from(_ID_FIRST), st.text(_ID_REST, max_size=6)),
+    st.builds(lambda a, suf: a + suf, st.sampled_from(["a", "dst", "x_1", "Q"]), st.sampled_from(["_ref", "_refs"])),
+)
+object_type = st.one_of(
+    st.sampled_from(["a", "file", "ipv4-addr", "network-traffic", "windows-registry-key", "x-custom-obj", "b", "_x", "A1", "x-1", "a--b",
+                     "q_", "t", "h", "x-", "user-account", "X-Y-Z", "and", "exists"]),
+    st.builds(lambda a, r: _fix_kw(a + r), st.sampled_from(_ID_FIRST), st.text(_ID_REST + "-", max_size=7)),
+)
+# names that can only be written quoted
+quoted_name = st.one_of(
+    st.sampled_from(["SHA-256", "k-2", "windows-pebinary-ext", "c d", "c.d", "", "AND", "true", "LIKE", "0abc", "9", "a'b", "a\\b", "é", "x[0]",
+                     "a:b", " ", "c-'d", "-", "a-b.c", "EXISTS", "\U0001f600", "a\nb", "NOT", "x*"]),
+    st.text(st.characters(exclude_categories=("Cs",)), max_size=5),
+    st.text("ab-._ '\\0", min_size=1, max_size=5),
+)
+
+
+@st.composite
+def key_step(draw):
+    r = draw(st.integers(0, 9))
+    if r <= 5:
+        return {"s": "key", "n": draw(ident), "q": False}
+    if r == 6:
+        return {"s": "key", "n": draw(ident), "q": True}     # quoted although it need not be
+    n = draw(quoted_name)
+    return {"s": "key", "n": n, "q": True}
+
+
+@st.composite
+def index_step(draw):
+    r = draw(st.integers(0, 9))
+    if r <= 3:
+        return {"s": "idx", "i": "*"}
+    i = draw(st.one_of(st.integers(0, 3), st.sampled_from([0, 1, 2, 10, 255, 2 ** 31, 10 ** 20])))
+    st_ = {"s": "idx", "i": i}
+    if r == 9:
+        st_["sp"] = "+%d" % i
+    return st_
+
+
+@st.composite
+def object_path(draw, otype=None):
+    t = otype if otype is not None else draw(object_type)
+    steps = [draw(key_step())]
+    nmore = draw(st.sampled_from([0, 0, 0, 0, 1, 1, 1, 2, 2, 3]))
+    for _ in range(nmore):
+        r = draw(st.integers(0, 19))
+        if r <= 5:
+            steps.append(draw(index_step()))
+            if r == 0:
+                steps.append(draw(index_step()))         # list of lists: rare, legal in the grammar
+        else:
+            steps.append(draw(key_step()))
+    return {"t": t, "steps": steps}
+
+
+HASH_PATHS = [
+    ({"t": "file", "steps": [{"s": "key", "n": "hashes", "q": False}, {"s": "key", "n": "MD5", "q": False}]}, "79054025255fb1a26e4bc422aef54eb4"),
+    ({"t": "file", "steps": [{"s": "key", "n": "hashes", "q": False}, {"s": "key", "n": "SHA-256", "q": True}]},
+     "aec070645fe53ee3b3763059376134f058cc337247c978add178b6ccdfb0019f"),
+]
+
+int_const = st.one_of(
+    st.integers(-5, 20).map(lambda v: {"c": "int", "v": v}),
+    st.sampled_from([0, 1, -1, 255, 65536, 2 ** 31, 2 ** 53 + 1, 2 ** 63, -2 ** 63 - 1, 10 ** 22, 371712]).map(lambda v: {"c": "int", "v": v}),
+    st.integers(0, 10 ** 6).map(lambda v: {"c": "int", "v": v, "sp": "+%d" % v}),
+    st.just({"c": "int", "v": 0, "sp": "-0"}),
+)
+
+
+@st.composite
+def float_const(draw):
+    r = draw(st.integers(0, 9))
+    if r <= 2:
+        sp = draw(st.sampled_from(["0.5", ".5", "+.5", "-.5", "00.50", "1.0", "-0.0", "0.0", "3.14159", "7.0", "0.1", "100.25", "0.30000000000000004",
+                                   "+1.5", "0.0001", "0.001", "9999999999999998.0", "123456.789", "1.10", "000.000"]))
+    elif r <= 4:   # magnitudes that Python's repr() writes with an exponent
+        sp = draw(st.sampled_from(["0.00001", "0.000015", ".00009999", "-0.00001", "0.0000000001", "10000000000000000.0", "123456789012345678.0",
+                                   "1000000000000000000000.0", "-20000000000000000.5", "0.000000000000000000000000001"]))
+    else:
+        sign = draw(st.sampled_from(["", "", "", "-", "+"]))
+        ip = draw(st.one_of(st.just(""), st.integers(0, 10 ** 9).map(str), st.integers(0, 99).map(lambda v: "0%d" % v)))
+        fp = draw(st.one_of(st.integers(0, 10 ** 6).map(str), st.integers(0, 999).map(lambda v: "%06d" % v), st.integers(1, 99).map(lambda v: "%d00" % v)))
+        sp = sign + ip + "." + fp
+    return {"c": "float", "sp": sp}
+
+
+str_const = st.one_of(
+    st.sampled_from(["", "a", "foo.dll", "C:\\Windows\\System32", "it's", "\\", "'", "\\'", "a\\\\b", "%x_", "^a.*b$", "1.2.3.4/24", "é", "日本語",
+                     "\U0001f600", "a\nb", "\t", "2020-01-01T00:00:00Z", "true", "1", "a b", "HKEY_LOCAL_MACHINE\\foo\\bar", "''", "\\\\'\\"]).map(
+        lambda v: {"c": "str", "v": v}),
+    st.text(st.characters(exclude_categories=("Cs",)), max_size=8).map(lambda v: {"c": "str", "v": v}),
+    st.text("ab'\\ %_", max_size=8).map(lambda v: {"c": "str", "v": v}),
+)
+bool_const = st.booleans().map(lambda v: {"c": "bool", "v": v})
+
+
+def _dim(y, m):
+    if m == 2:
+        return 29 if (y % 4 == 0 and (y % 100 != 0 or y % 400 == 0)) else 28
+    return 30 if m in (4, 6, 9, 11) else 31
+
+
+@st.composite
+def ts_text(draw, max_frac=9):
+    y = draw(st.one_of(st.integers(1970, 2030), st.integers(1, 9999), st.sampled_from([1, 999, 1000, 1582, 1900, 2000, 9999])))
+    mo = draw(st.integers(1, 12))
+    d = draw(st.one_of(st.integers(1, 28), st.just(_dim(y, mo)), st.just(1)))
+    h, mi, s = draw(st.sampled_from([0, 23]) | st.integers(0, 23)), draw(st.sampled_from([0, 59]) | st.integers(0, 59)), draw(st.sampled_from([0, 59]) | st.integers(0, 59))
+    nfrac = draw(st.sampled_from([0, 0, 1, 2, 3, 3, 6, 6] + ([7, 9] if max_frac >= 9 else [])))
+    if nfrac > max_frac:
+        nfrac = max_frac
+    frac = ""
+    if nfrac:
+        frac = "." + draw(st.one_of(st.text("0123456789", min_size=nfrac, max_size=nfrac), st.just("0" * nfrac), st.just(("1" + "0" * nfrac)[:nfrac]),
+                                    st.just("9" * nfrac)))
+    return "%04d-%02d-%02dT%02d:%02d:%02d%sZ" % (y, mo, d, h, mi, s, frac)
+
+
+ts_const = ts_text().map(lambda v: {"c": "ts", "v": v})
+hex_const = st.one_of(
+    st.sampled_from(["ab", "AB", "00", "ffFF", "4fa2", "", "0123456789abcdef"]).map(lambda v: {"c": "hex", "v": v}),
+    st.binary(min_size=1, max_size=6).flatmap(lambda b: st.sampled_from([b.hex(), b.hex().upper()])).map(lambda v: {"c": "hex", "v": v}),
+)
+
+
+def _b64(b):
+    import base64
+    return base64.b64encode(b).decode("ascii")
+
+
+bin_const = st.one_of(st.sampled_from(["YQ==", "YWI=", "YWJj", "ZmpoZWll", "/+8=", "AAAA"]), st.binary(min_size=1, max_size=7).map(_b64)).map(
+    lambda v: {"c": "bin", "v": v})
+
+orderable_const = st.one_of(int_const, float_const(), str_const, ts_const, hex_const, bin_const)
+primitive_const = st.one_of(int_const, float_const(), str_const, ts_const, hex_const, bin_const, bool_const)
+set_const = st.lists(primitive_const, min_size=0, max_size=4).map(lambda items: {"c": "set", "items": items})
+
+
+# ---- static pools: one Hypothesis draw per leaf part instead of a dozen (generation cost dominates otherwise).
+# Built deterministically at import time from a fixed-seed PRNG; the fine-grained strategies above stay in use for
+# a share of the leaves so that values outside the pools keep appearing.
+
+def _build_pools():
+    import random
+    rnd = random.Random(20260926)
+    idents = ["b", "c", "name", "value", "size", "x", "dst_ref", "src_ref", "parent_ref", "opened_connection_refs", "_p", "A", "Z9", "x_y_z", "t", "h",
+              "like", "and", "In", "exists", "TRUE", "not", "a1", "extensions", "key", "values", "a_ref", "Q_refs", "sections", "entropy", "data"]
+    quoted = ["SHA-256", "k-2", "windows-pebinary-ext", "c d", "c.d", "", "AND", "true", "LIKE", "0abc", "9", "a'b", "a\\b", "\u00e9", "x[0]", "a:b", " ",
+              "c-'d", "-", "a-b.c", "EXISTS", "\U0001f600", "a\nb", "NOT", "x*", "b", "name", "'", "\\", "k_2", "a-b-c"]
+    types = ["a", "file", "ipv4-addr", "network-traffic", "windows-registry-key", "x-custom-obj", "b", "_x", "A1", "x-1", "a--b", "q_", "t", "h", "x-",
+             "user-account", "X-Y-Z", "and", "exists", "process", "url", "email-message", "c", "x509-certificate"]
+    idxs = ["*", "*", "*", 0, 1, 2, 10, 255, 2 ** 31, 10 ** 20, 0, 1]
+
+    def key():
+        r = rnd.randrange(10)
+        if r <= 5:
+            return {"s": "key", "n": rnd.choice(idents), "q": False}
+        if r == 6:
+            return {"s": "key", "n": rnd.choice(idents), "q": True}
+        return {"s": "key", "n": rnd.choice(quoted), "q": True}
+
+    def idx():
+        i = rnd.choice(idxs)
+        stp = {"s": "idx", "i": i}
+        if i != "*" and rnd.randrange(8) == 0:
+            stp["sp"] = "+%d" % i
+        return stp
+
+    shapes = []
+    for _ in range(420):
+        steps = [key()]
+        for _ in range(rnd.choice([0, 0, 0, 0, 1, 1, 1, 2, 2, 3])):
+            r = rnd.randrange(20)
+            if r <= 5:
+                steps.append(idx())
+                if r == 0:
+                    steps.append(idx())
+            else:
+                steps.append(key())
+        shapes.append(steps)
+    return types, shapes
+
+
+TYPE_POOL, STEPS_POOL = _build_pools()
+INT_POOL = ([{"c": "int", "v": v} for v in list(range(-3, 12)) + [255, 65536, 2 ** 31, 2 ** 53 + 1, 2 ** 63, -2 ** 63 - 1, 10 ** 22, 371712, -17]]
+            + [{"c": "int", "v": v, "sp": "+%d" % v} for v in (0, 1, 5, 42, 10 ** 6)] + [{"c": "int", "v": 0, "sp": "-0"}])
+FLOAT_POOL = [{"c": "float", "sp": sp} for sp in [
+    "0.5", ".5", "+.5", "-.5", "00.50", "1.0", "-0.0", "0.0", "3.14159", "7.0", "0.1", "100.25", "0.30000000000000004", "+1.5", "0.0001", "0.001",
+    "9999999999999998.0", "123456.789", "1.10", "000.000", "2.5", "-3.25", "1234567.125", "0.75", "10.0", "-1.0", "0.125", "99.99", "6.02", "1.000001",
+    # magnitudes that Python's repr() writes with an exponent
+    "0.00001", "0.000015", ".00009999", "-0.00001", "0.0000000001", "10000000000000000.0", "123456789012345678.0", "1000000000000000000000.0",
+    "-20000000000000000.5", "0.000000000000000000000000001"]]
+STR_POOL = [{"c": "str", "v": v} for v in [
+    "", "a", "foo.dll", "C:\\Windows\\System32", "it's", "\\", "'", "\\'", "a\\\\b", "%x_", "^a.*b$", "1.2.3.4/24", "\u00e9", "\u65e5\u672c\u8a9e", "\U0001f600", "a\nb",
+    "\t", "2020-01-01T00:00:00Z", "true", "1", "a b", "HKEY_LOCAL_MACHINE\\foo\\bar", "''", "\\\\'\\", "pdf.exe", "abc", "ABC", "x%", "198.51.100.1/32",
+    "site.of.interest.zaz", "$$t00rzch$$.elf", "\u2028", "\x00", "a\\'b", "'\\", "end\\", "'start", "\"", "a, b", "(x)", "[y]", "t'z'", "h'00'", "--", "/* c */"]]
+BOOL_POOL = [{"c": "bool", "v": True}, {"c": "bool", "v": False}]
+TS_POOL = [{"c": "ts", "v": v} for v in [
+    "2020-01-01T00:00:00Z", "2016-06-01T00:00:00Z", "2014-01-13T07:03:17Z", "1982-12-31T02:14:17.232Z", "2020-02-29T23:59:59Z", "0001-01-01T00:00:00Z",
+    "9999-12-31T23:59:59.999999Z", "0999-06-15T12:00:00Z", "1000-01-01T00:00:00.0Z", "2020-01-01T00:00:00.1Z", "2020-01-01T00:00:00.10Z",
+    "2020-01-01T00:00:00.100Z", "2020-01-01T00:00:00.000Z", "2020-01-01T00:00:00.123Z", "2020-01-01T00:00:00.1234Z", "2020-01-01T00:00:00.12345Z",
+    "2020-01-01T00:00:00.123456Z", "2020-01-01T00:00:00.000001Z", "2020-01-01T00:00:00.999999Z", "2021-12-31T23:59:59.5Z", "1970-01-01T00:00:00Z",
+    "2038-01-19T03:14:08Z", "1900-03-01T10:20:30.040Z", "1582-10-15T00:00:00Z", "2000-02-29T12:34:56.78Z",
+    # more than six fraction digits
+    "2020-01-01T00:00:00.1234567Z", "2020-01-01T00:00:00.123456789Z", "2020-01-01T00:00:00.0000000Z", "1999-12-31T23:59:59.9999999Z"]]
+HEX_POOL = [{"c": "hex", "v": v} for v in ["ab", "AB", "00", "ffFF", "4fa2", "0123456789abcdef", "Ab", "7f", "DEADBEEF", "0a0B", ""]]
+BIN_POOL = [{"c": "bin", "v": v} for v in ["YQ==", "YWI=", "YWJj", "ZmpoZWll", "/+8=", "AAAA", "q80=", "3q2+7w==", "AA==", "++//"]]
+
+_pool_path = st.builds(lambda t, steps: {"t": t, "steps": steps}, st.sampled_from(TYPE_POOL), st.sampled_from(STEPS_POOL))
+
+
+def path_of(otype):
+    if otype is None:
+        return st.one_of(_pool_path, _pool_path, _pool_path, object_path())
+    pooled = st.sampled_from(STEPS_POOL).map(lambda steps: {"t": otype, "steps": steps})
+    return st.one_of(pooled, pooled, pooled, object_path(otype))
+
+
+pool_int = st.sampled_from(INT_POOL)
+pool_float = st.sampled_from(FLOAT_POOL)
+pool_str = st.sampled_from(STR_POOL)
+pool_ts = st.sampled_from(TS_POOL)
+pool_hex = st.sampled_from(HEX_POOL)
+pool_bin = st.sampled_from(BIN_POOL)
+pool_bool = st.sampled_from(BOOL_POOL)
+q_orderable = st.one_of(pool_int, pool_float, pool_str, pool_ts, pool_hex, pool_bin, pool_int, pool_float, pool_str, pool_ts, orderable_const)
+q_primitive = st.one_of(pool_int, pool_float, pool_str, pool_ts, pool_hex, pool_bin, pool_bool, pool_str, pool_float, primitive_const)
+q_string = st.one_of(pool_str, pool_str, pool_str, str_const)
+q_set = st.lists(q_primitive, min_size=0, max_size=4).map(lambda items: {"c": "set", "items": items})
+_OP_DRAW = OPS + ["=", "="]
+
+# Pre-built strategy objects and plain recursive builder functions taking `draw`: creating strategy objects inside
+# composites on every call costs more than the draws themselves.
+_I2, _I8, _I10, _I12, _I20, _I25, _I40 = (st.integers(0, k - 1) for k in (2, 8, 10, 12, 20, 25, 40))
+_S_TYPE = st.one_of(st.sampled_from(TYPE_POOL), st.sampled_from(TYPE_POOL), object_type)
+_S_STEPS = st.sampled_from(STEPS_POOL)
+_S_FRESH_PATH = object_path()
+_S_ARITY = st.sampled_from([2, 2, 2, 2, 3])
+_S_CDEPTH = st.sampled_from([0, 0, 0, 1, 1, 2])
+_S_ODEPTH = st.sampled_from([0, 0, 1, 1, 1, 2, 2])
+_S_NQ = st.sampled_from([0, 0, 0, 0, 0, 0, 1, 1, 2, 3])
+_S_REPN = st.sampled_from([1, 2, 3, 4, 5, 1, 2, 10, 1000, 2 ** 40])
+_S_WITHIN = st.sampled_from([1, 2, 3, 4, 5, 6, 7, 8, 9, 10, 60, 300, 86400, 2 ** 40])
+_S_WFLOAT = st.sampled_from(["1.5", ".5", "0.25", "10.0", "+2.5"])
+_S_TS_TEXT = ts_text()
+_S_VER = st.sampled_from(["2.1", "2.1", "2.1", "2.1", "2.0"])
+_S_OOP = st.sampled_from(["oand", "oor", "ofb"])
+
+
+def _g_path(draw, otype):
+    if draw(_I8) == 0:
+        p = draw(_S_FRESH_PATH)
+        return {"t": otype if otype is not None else p["t"], "steps": p["steps"]}
+    return {"t": otype if otype is not None else draw(_S_TYPE), "steps": draw(_S_STEPS)}
+
+
+def _g_comparison(draw, otype, version):
+    r = draw(_I40)
+    if r == 0 and version == "2.1":
+        return {"k": "exists", "path": _g_path(draw, otype), "neg": bool(draw(_I2))}
+    if r == 1 and otype in (None, "file"):
+        p, val = HASH_PATHS[draw(_I2)]
+        return {"k": "cmp", "path": p, "op": "=", "neg": bool(draw(_I2)), "rhs": {"c": "str", "v": val}}
+    op = _OP_DRAW[r % len(_OP_DRAW)]
+    neg = draw(_I10) < 3
+    if op in ("=", "!="):
+        rhs = draw(q_primitive)
+    elif op in ORDER_OPS:
+        rhs = draw(q_orderable)
+    elif op == "IN":
+        rhs = draw(q_set)
+    else:
+        rhs = draw(q_string)
+    return {"k": "cmp", "path": _g_path(draw, otype), "op": op, "neg": neg, "rhs": rhs}
+
+
+def _g_cexpr(draw, depth, otype, version):
+    """Boolean tree inside one [...].  Operands normally share one object type (a comparison AND over disjoint
+    types can never match and the library refuses it: generated rarely, counted under its own key)."""
+    if depth <= 0 or draw(_I10) < 4:
+        return _g_comparison(draw, otype if draw(_I25) else None, version)
+    k = "and" if draw(_I2) else "or"
+    return {"k": k, "args": [_g_cexpr(draw, depth - 1, otype, version) for _ in range(draw(_S_ARITY))]}
+
+
+def _g_qual(draw):
+    r = draw(_I12)
+    if r <= 3:
+        n = draw(_S_REPN)
+        c = {"c": "int", "v": n}
+        if r == 0:
+            c["sp"] = "+%d" % n
+        return {"q": "repeats", "n": c}
+    if r <= 7:
+        if r == 4 and draw(_I2):
+            return {"q": "within", "n": {"c": "float", "sp": draw(_S_WFLOAT)}}
+        n = draw(_S_WITHIN)
+        c = {"c": "int", "v": n}
+        if r == 5:
+            c["sp"] = "+%d" % n
+        return {"q": "within", "n": c}
+    if r <= 10:
+        return {"q": "startstop", "a": draw(pool_ts), "b": draw(pool_ts)}
+    return {"q": "startstop", "a": {"c": "ts", "v": draw(_S_TS_TEXT)}, "b": {"c": "ts", "v": draw(_S_TS_TEXT)}}
+
+
+def _g_oexpr(draw, depth, version):
+    r = draw(_I10)
+    if depth <= 0 or r < 3:
+        n = {"k": "obs", "e": _g_cexpr(draw, draw(_S_CDEPTH), draw(_S_TYPE), version)}
+    elif r < 8:
+        k = draw(_S_OOP)
+        n = {"k": k, "args": [_g_oexpr(draw, depth - 1, version) for _ in range(draw(_S_ARITY))]}
+    else:
+        n = _g_oexpr(draw, depth - 1, version)
+    for _ in range(draw(_S_NQ)):
+        n = {"k": "qual", "e": n, "q": _g_qual(draw)}
+    return n
+
+
+@st.composite
+def comparison_expr(draw, depth=2, otype=None, version="2.1"):
+    return _g_cexpr(draw, depth, otype if otype is not None else draw(_S_TYPE), version)
+
+
+@st.composite
+def observation_expr(draw, depth=2, version="2.1"):
+    return _g_oexpr(draw, depth, version)
+
+
+style = st.one_of(st.just([]), st.lists(st.integers(0, 9), min_size=1, max_size=24))
+
+
+@st.composite
+def text_case(draw, version=None):
+    """{"ast":..., "sty":[...], "ver":"2.1"|"2.0"} -- printed with to_text(ast, sty)."""
+    ver = version or draw(_S_VER)
+    ast = _g_oexpr(draw, draw(_S_ODEPTH), ver)
+    return {"ast": ast, "sty": draw(style), "ver": ver}
+
+
+# ----------------------------------------------------------------------
+# named input features (used for class tables and for root-cause keys) and their removal
+
+def float_prints_with_exponent(sp):
+    """Python's shortest repr switches to exponent form below 1e-4 and from 1e16 on."""
+    v = abs(float(sp))
+    return v != 0 and (v < 1e-4 or v >= 1e16)
+
+
+def ts_frac_digits(v):
+    m = TS_RE.match(v)
+    return len(m.group(7) or "") if m else 0
+
+
+def step_needs_quotes(name):
+    return not plain_ident(name)
+
+
+def _path_features(p, out):
+    steps = p["steps"]
+    for i, s in enumerate(steps):
+        if s["s"] == "key":
+            if s.get("q") or step_needs_quotes(s["n"]):
+                out.add("step:quoted")
+                if i > 0 and step_needs_quotes(s["n"]) and "-" not in s["n"]:
+                    out.add("quoted-step-needs-quotes")
+                if i > 0 and i + 1 < len(steps) and steps[i + 1]["s"] == "idx" and steps[i + 1]["i"] == "*":
+                    out.add("quoted-step-star")
+            if s["n"].endswith("_ref") or s["n"].endswith("_refs"):
+                out.add("step:ref")
+        else:
+            out.add("step:star" if s["i"] == "*" else "step:index")
+            if i > 0 and steps[i - 1]["s"] == "idx":
+                out.add("double-index")
+    if len(steps) > 1:
+        out.add("step:nested")
+
+
+def features(ast):
+    """Set of feature names of an observation-level AST."""
+    out = set()
+    for n in walk(ast):
+        k = n["k"]
+        if k == "cmp":
+            op = n["op"]
+            out.add("op:" + op)
+            _path_features(n["path"], out)
+            if n["neg"]:
+                out.add("NOT")
+                out.add("not:" + op)
+                if op in ORDER_OPS:
+                    out.add("not-order")
+                elif op == "!=":
+                    out.add("not-neq")
+                elif op != "=":
+                    out.add("not-setlike:" + op)
+            if n["rhs"]["c"] == "set":
+                out.add("set:%d" % min(len(n["rhs"]["items"]), 3))
+        elif k == "exists":
+            out.add("exists")
+            _path_features(n["path"], out)
+        elif k == "and":
+            out.add("bool:and")
+            if len(_all_types(n)) > 1:
+                out.add("and-mixed-types")
+        elif k == "or":
+            out.add("bool:or")
+        elif k in OBS_OPS:
+            out.add("obs:" + OBS_OPS[k])
+        elif k == "qual":
+            out.add("qual:" + n["q"]["q"])
+            if n["e"]["k"] == "qual":
+                out.add("qual:stacked")
+            if n["q"]["q"] == "within" and n["q"]["n"]["c"] == "float":
+                out.add("within-float")
+    for c in consts_of(ast):
+        ck = c["c"]
+        out.add("const:" + ck)
+        if ck == "float" and float_prints_with_exponent(c["sp"]):
+            out.add("float-exp")
+        elif ck == "ts" and ts_frac_digits(c["v"]) > 6:
+            out.add("ts-frac>6")
+        elif ck == "hex" and c["v"] == "":
+            out.add("hex-empty")
+        elif ck == "str" and ("'" in c["v"] or "\\" in c["v"]):
+            out.add("str:needs-escape")
+        elif ck in ("int", "float") and c.get("sp") and c["sp"][0] == "+":
+            out.add("num:plus-sign")
+    return out
+
+
+def _all_types(n):
+    return {x["path"]["t"] for x in walk(n) if x["k"] in ("cmp", "exists")}
+
+
+def _map_consts(ast, fn):
+    def node(n):
+        if n["k"] == "cmp":
+            r = n["rhs"]
+            n["rhs"] = {"c": "set", "items": [fn(x) for x in r["items"]]} if r["c"] == "set" else fn(r)
+        elif n["k"] == "qual":
+            n["q"] = {key: (fn(val) if key in ("n", "a", "b") else val) for key, val in n["q"].items()}
+        return n
+    return map_nodes(ast, node)
+
+
+def _map_paths(ast, fn):
+    def node(n):
+        if n["k"] in ("cmp", "exists"):
+            n["path"] = fn(n["path"])
+        return n
+    return map_nodes(ast, node)
+
+
+def strip_feature(ast, feat):
+    """Same pattern with every occurrence of the named feature replaced by the nearest harmless form."""
+    if feat in ("not-order", "not-neq") or feat.startswith("not-setlike:"):
+        def node(n):
+            if n["k"] == "cmp" and n["neg"]:
+                op = n["op"]
+                if (feat == "not-order" and op in ORDER_OPS) or (feat == "not-neq" and op == "!=") or feat == "not-setlike:" + op:
+                    n["neg"] = False
+            return n
+        return map_nodes(ast, node)
+    if feat == "exists":
+        return map_nodes(ast, lambda n: {"k": "cmp", "path": n["path"], "op": "=", "neg": n["neg"], "rhs": {"c": "int", "v": 1}} if n["k"] == "exists" else n)
+    if feat == "float-exp":
+        return _map_consts(ast, lambda c: {"c": "float", "sp": "0.5"} if c["c"] == "float" and float_prints_with_exponent(c["sp"]) else c)
+    if feat == "ts-frac>6":
+        def fix(c):
+            if c["c"] == "ts" and ts_frac_digits(c["v"]) > 6:
+                head, frac = c["v"][:-1].split(".")
+                return {"c": "ts", "v": head + "." + frac[:6] + "Z"}
+            return c
+        return _map_consts(ast, fix)
+    if feat == "hex-empty":
+        return _map_consts(ast, lambda c: {"c": "hex", "v": "00"} if c["c"] == "hex" and c["v"] == "" else c)
+    if feat == "within-float":
+        def node(n):
+            if n["k"] == "qual" and n["q"]["q"] == "within" and n["q"]["n"]["c"] == "float":
+                n["q"] = {"q": "within", "n": {"c": "int", "v": 1}}
+            return n
+        return map_nodes(ast, node)
+    if feat == "and-mixed-types":
+        def node(n):
+            if n["k"] == "obs":
+                ts = sorted(_all_types(n["e"]))
+                if len(ts) > 1:
+                    n["e"] = _map_paths(n["e"], lambda p: {"t": ts[0], "steps": p["steps"]})
+            return n
+        return map_nodes(ast, node)
+    if feat in ("quoted-step-needs-quotes", "quoted-step-star", "double-index"):
+        def fix(p):
+            steps = []
+            for i, s in enumerate(p["steps"]):
+                s = dict(s)
+                prev = steps[-1] if steps else None
+                if feat == "double-index" and s["s"] == "idx" and prev is not None and prev["s"] == "idx":
+                    continue
+                if feat == "quoted-step-needs-quotes" and s["s"] == "key" and i > 0 and step_needs_quotes(s["n"]) and "-" not in s["n"]:
+                    s = {"s": "key", "n": "k-2", "q": True}
+                if feat == "quoted-step-star" and s["s"] == "idx" and s["i"] == "*" and prev is not None and prev["s"] == "key" and len(steps) > 1 \
+                        and (prev.get("q") or step_needs_quotes(prev["n"])):
+                    steps[-1] = {"s": "key", "n": "qs", "q": False}
+                steps.append(s)
+            return {"t": p["t"], "steps": steps}
+        return _map_paths(ast, fix)
+    raise ValueError("unknown feature %r" % feat)
+
+
+def nontrivial_c10(ast, feats=None):
+    """DESIGN C10 NT: >= 1 NOT or quoted/indexed step or constant needing escaping, and nesting depth >= 2."""
+    f = feats if feats is not None else features(ast)
+    return bool(f & {"NOT", "step:quoted", "step:index", "step:star", "str:needs-escape"}) and depth(ast) >= 3
+
+
+# ----------------------------------------------------------------------
+# self-test: printer <-> parser agree on fixed examples, spelling erasure, refusals
+
+_SELFTEST_TEXTS = [
+    "[a:b = 1]",
+    "[a:b NOT != +5 AND (a:c IN (1, 'x', true) OR a-b:'q q'[*].r_ref.s[2] LIKE 'a\\'b\\\\')]",
+    "([x:y = .5] OR [x:y > t'2020-01-01T00:00:00.10Z']) REPEATS 2 TIMES WITHIN 1.5 SECONDS",
+    "[a:b = 1] FOLLOWEDBY [a:b = 2] OR [a:b = 3] AND [a:b = 4] START t'2020-01-01T00:00:00Z' STOP t'2021-01-01T00:00:00Z'",
+    "[a:b = 1] AND ([a:b = 2] AND [a:b = 3])",
+    "[NOT EXISTS a:b.'c-d'[0] OR a:b != h'AB' AND a:b = b'YQ==']",
+    "([a:b MATCHES '^x'] REPEATS 2 TIMES) REPEATS 3 TIMES",
+]
+
+
+def selftest():
+    """Raises AssertionError when the printer, the parser or the canonical form disagree."""
+    for t in _SELFTEST_TEXTS:
+        a = parse(t)
+        for sty in ([], [1], [3, 1, 4, 1, 5, 9, 2, 6], [6, 6, 6], [9, 8, 7, 6, 5, 4, 3, 2, 1, 0]):
+            t2 = to_text(a, sty)
+            assert canon(parse(t2)) == canon(a), (t, sty, t2)
+        assert to_text(a) == t, (to_text(a), t)
+    # structure is what the grammar says: FOLLOWEDBY < OR < AND, qualifiers bind to the nearest operand
+    a = parse(_SELFTEST_TEXTS[3])
+    assert a["k"] == "ofb" and a["args"][1]["k"] == "oor" and a["args"][1]["args"][1]["k"] == "oand", a
+    assert a["args"][1]["args"][1]["args"][1]["k"] == "qual"
+    a = parse("[a:b = 1 OR a:c = 2 AND a:d = 3]")["e"]
+    assert a["k"] == "or" and a["args"][1]["k"] == "and"
+    assert parse("[a:b = 1] AND ([a:b = 2] AND [a:b = 3])")["args"][1]["k"] == "oand"
+    assert len(parse("([a:b = 1] AND [a:b = 2]) AND [a:b = 3]")["args"]) == 2
+    assert len(parse("[a:b = 1] AND [a:b = 2] AND [a:b = 3]")["args"]) == 3
+    # spelling erasure
+    c = lambda t: canon(parse(t))  # noqa: E731
+    assert c("[a:b != 1]") == c("[a:b NOT = 1]") == c("[a:b<>+1]") and c("[a:b NOT != 1]") == c("[a:b == 1]") != c("[a:b != 1]")
+    assert c("[a:b = .50]") == c("[a:b = 0.5]") != c("[a:b = 5]") and c("[a:b = 1]") != c("[a:b = 1.0]")
+    assert c("[a:b = t'2020-01-01T00:00:00.100Z']") == c("[a:b = t'2020-01-01T00:00:00.1Z']") != c("[a:b = t'2020-01-01T00:00:00Z']")
+    assert c("[a:b = h'AB']") == c("[a:b = h'ab']") and c("[a:'b'.c = 1]") == c("[a:b.'c' = 1]") != c("[a:'b.c' = 1]")
+    assert c("[a:b = 'x\\'y']")["e"]["rhs"]["v"] == "x'y" and c("[a:b = '\\\\']")["e"]["rhs"]["v"] == "\\"
+    assert c("[a:b IN (1,2)]") != c("[a:b IN (2,1)]")
+    # refusals (each is refused by the reference grammar as well)
+    for bad in ["[a:b = 05]", "[a:b = 5.]", "[a:b = 1e5]", "[a:b > true]", "[a:b = TRUE]", "[a:b = h'a']", "[a:b = b'YQ']", "[a:b = 'a\\nb']",
+                "[a:b-c = 1]", "[a:AND = 1]", "[a:b[01] = 1]", "[a:[0] = 1]", "[a:b LIKE 1]", "[a:b=1] and [a:b=2]", "[a:b=1] WITHIN -1 SECONDS",
+                "[a:b=1] START '2020-01-01T00:00:00Z' STOP '2021-01-01T00:00:00Z'", "[a:bIN (1)]", "[a:b=1 ANDa:c=2]", "[a:b=<1]", "a:b = 1", "[a:b = 1",
+                "[a:b = t'2020-13-01T00:00:00Z']", "[a:b = 1]]", "[a:b = 1] REPEATS 2.5 TIMES", ""]:
+        try:
+            parse(bad)
+        except PatternSyntaxError:
+            continue
+        raise AssertionError("parser accepted %r" % bad)
+    try:
+        parse("[EXISTS a:b]", "2.0")
+    except PatternSyntaxError:
+        pass
+    else:
+        raise AssertionError("2.0 parser accepted EXISTS")
+    f = features(parse("[a:b.'c d'[*] NOT > 0.00001 AND c:d NOT IN (h'', t'2020-01-01T00:00:00.1234567Z')] WITHIN 1.5 SECONDS"))
+    for name in ("not-order", "not-setlike:IN", "float-exp", "ts-frac>6", "hex-empty", "within-float", "and-mixed-types", "quoted-step-needs-quotes",
+                 "quoted-step-star"):
+        assert name in f, (name, f)
+        assert name not in features(strip_feature(parse("[a:b.'c d'[*] NOT > 0.00001 AND c:d NOT IN (h'', t'2020-01-01T00:00:00.1234567Z')] "
+                                                        "WITHIN 1.5 SECONDS"), name)), name
